@@ -31,6 +31,7 @@ class RepoWorld(World):
         self.isinstance_hooks, self.getattr_hooks, self.call_ref_hooks = [], [], []
         self.method_hooks, self.getitem_hooks, self.setitem_hooks, self.truthy_hooks = [], [], [], []
         self.hasattr_hooks, self.callable_hooks = [], []
+        self.binop_hooks, self.compare_hooks, self.unary_hooks, self.with_call_hooks, self.ref_getattr_hooks = [], [], [], [], []
         self.path_getters = {}
 
     def isinstance_hook(self, ex, v, nm):
@@ -83,6 +84,68 @@ class RepoWorld(World):
         if g is not None:
             return g(ex)
         return super().resolve_path(ex, path)
+
+    def binop_hook(self, ex, op, a, b):
+        for h in self.binop_hooks:
+            r = h(ex, op, a, b)
+            if r is not None:
+                return r
+        return None
+
+    def compare_hook(self, ex, op, a, b):
+        for h in self.compare_hooks:
+            r = h(ex, op, a, b)
+            if r is not None:
+                return r
+        return None
+
+    def unary_hook(self, ex, op, v):
+        for h in self.unary_hooks:
+            r = h(ex, op, v)
+            if r is not None:
+                return r
+        return None
+
+    def with_call(self, ex, fn, args, kwargs, body_thunk):
+        return any(h(ex, fn, args, kwargs, body_thunk) for h in self.with_call_hooks)
+
+    def ref_getattr(self, ex, base, attr):
+        for h in self.ref_getattr_hooks:
+            r = h(ex, base, attr)
+            if r is not None:
+                return r
+        if base.sort == "Opaque":
+            from specs.opaque import fresh_opaque
+            return fresh_opaque(ex)
+        return super().ref_getattr(ex, base, attr)
+
+    def ref_setattr(self, ex, base, attr, v):
+        if base.sort == "Opaque":
+            return
+        return super().ref_setattr(ex, base, attr, v)
+
+    def ref_eq(self, ex, a, b):
+        return None
+
+    def call_path(self, ex, path, args, kwargs):
+        try:
+            return super().call_path(ex, path, args, kwargs)
+        except OutOfSubset as e:
+            root = ex.frames[0].get("contract") if ex.frames else None
+            if root is not None and getattr(root, "opaque_externals", False) and "unmodelled external call" in str(e):
+                from specs.opaque import fresh_opaque
+                ex.assumptions_used.add(f"external call {path}(...) treated as opaque (no effect on modelled state)")
+                return fresh_opaque(ex)
+            raise
+
+    def with_value(self, ex, cm, body_thunk):
+        if isinstance(cm, VRef) and cm.sort == "Opaque":
+            body_thunk(cm)
+            return True
+        return False
+
+    def iter_hook(self, ex, it):
+        return None
 
     def attr_known_absent(self, v, nm):
         return True
